@@ -233,6 +233,7 @@ def run(ctx):  # noqa: C901, PLR0912
                                    f'object ({unparse(t)}), which is shared by all instances', fi=fi, node=n)
 
     from . import common
+    common.entity_getters_hand_out_copies(ctx, 'C12.R3')
     common.copies_are_deep(ctx, 'C12.R3', with_mk_copy=False)
     # ------------------------------------------------------------------ R3
     mk = repo.func('sdc11073.mdib.containerbase.ContainerBase.mk_copy')
